@@ -13,11 +13,11 @@ import (
 // forced collections) against a fixed threshold far from both behaviours.
 
 const (
-	c17Pump      = 40000     // repetitions of a cycle
-	c17Threshold = 64 << 10  // bytes of growth tolerated per pumped cycle
-	c17Trees     = 200       // emptied trees held alive for the emptiness clause
-	c17PerTree   = 4 << 10   // retained bytes tolerated per emptied tree
-	c17PerTreeCo = 32 << 10  // ... for collation trees (codec owns a 4 KiB buffer and collator state)
+	c17Pump      = 40000    // repetitions of a cycle
+	c17Threshold = 64 << 10 // bytes of growth tolerated per pumped cycle
+	c17Trees     = 200      // emptied trees held alive for the emptiness clause
+	c17PerTree   = 4 << 10  // retained bytes tolerated per emptied tree
+	c17PerTreeCo = 32 << 10 // ... for collation trees (codec owns a 4 KiB buffer and collator state)
 	c17WarmRound = 2000
 )
 
@@ -80,7 +80,7 @@ func cyclesFor(u *Universe, ref *Ref) []cycle {
 
 type MonNop struct{ id string }
 
-func (m MonNop) ID() string                    { return m.id }
+func (m MonNop) ID() string                  { return m.id }
 func (MonNop) Transition(x *Exec) *Violation { return nil }
 func (MonNop) State(x *Exec) *Violation      { return nil }
 
